@@ -107,9 +107,11 @@ func spdxSeams(rep *Report, cf caseAdder, g *gen.G, d *sbom.Document, kind strin
 		}
 	}
 	c := fmt.Sprintf("(SSer %s %s %s %s)", coqfmt.Document(d), docTimes(d), coqfmt.Str(self), obs)
-	cf.Add(c)
-	rep.NoteCase(c, d.NodeList != nil && len(d.NodeList.Nodes) >= 2, map[string]any{"seam": "Serialize", "kind": kind, "document": docJSON(d)})
-	rep.Count("seam=A:" + kind)
+	if !tooLarge(rep, c) {
+		cf.Add(c)
+		rep.NoteCase(c, d.NodeList != nil && len(d.NodeList.Nodes) >= 2, map[string]any{"seam": "Serialize", "kind": kind, "document": docJSON(d)})
+		rep.Count("seam=A:" + kind)
+	}
 	if sd == nil {
 		return nil, nil
 	}
@@ -134,9 +136,11 @@ func spdxSeams(rep *Report, cf caseAdder, g *gen.G, d *sbom.Document, kind strin
 	if kind == "class" {
 		// the JSON layer (third-party encoder and decoder) is modelled on the class only
 		c2 := fmt.Sprintf("(SChan %s %s)", nativefmt.SDoc(sd), obsC)
-		cf.Add(c2)
-		rep.NoteCase(c2, len(sd.Packages)+len(sd.Files) >= 2, map[string]any{"seam": "JSON layer", "kind": kind, "document": docJSON(d), "indent": indent})
-		rep.Count("seam=C:" + kind)
+		if !tooLarge(rep, c2) {
+			cf.Add(c2)
+			rep.NoteCase(c2, len(sd.Packages)+len(sd.Files) >= 2, map[string]any{"seam": "JSON layer", "kind": kind, "document": docJSON(d), "indent": indent})
+			rep.Count("seam=C:" + kind)
+		}
 	}
 	if decoded == nil {
 		return nil, nil
@@ -147,9 +151,11 @@ func spdxSeams(rep *Report, cf caseAdder, g *gen.G, d *sbom.Document, kind strin
 		return nil, buf.Bytes()
 	}
 	c3 := fmt.Sprintf("(SUnser %s %s %s)", nativefmt.SDoc(decoded), parseTimes(decoded), coqfmt.NodeList(doc2.NodeList))
-	cf.Add(c3)
-	rep.NoteCase(c3, len(doc2.NodeList.Nodes) >= 2, map[string]any{"seam": "Unserialize", "kind": kind, "document": docJSON(d)})
-	rep.Count("seam=B:" + kind)
+	if !tooLarge(rep, c3) {
+		cf.Add(c3)
+		rep.NoteCase(c3, len(doc2.NodeList.Nodes) >= 2, map[string]any{"seam": "Unserialize", "kind": kind, "document": docJSON(d)})
+		rep.Count("seam=B:" + kind)
+	}
 	return doc2, buf.Bytes()
 }
 
